@@ -305,7 +305,7 @@ Qed.
    Field level: the bits of a number field, decoded (sign extension, scaling) and re-encoded
    (division, round half even, range check, two's complement), are reproduced exactly.
    ------------------------------------------------------------------------------------------ *)
-From NV Require Import Bits Fields Spec SpecProofs EncodeProofs.
+From NV Require Import Defn Bits Fields Spec SpecProofs EncodeProofs.
 Open Scope Z_scope.
 
 Lemma wrap_sign_extend signed len bits : 1 <= len -> 0 <= bits < 2 ^ len ->
